@@ -240,7 +240,13 @@ class TTGlyphPen(_TTGlyphBasePen, LoggingPen):
             startPt = 0
             if self.endPts:
                 startPt = self.endPts[-1] + 1
-            if self.points[startPt] == self.points[endPt]:
+            # (only if the last point is an on-curve point, i.e. a closing lineTo or
+            # curve end that duplicates the moveTo point: in a contour without
+            # on-curve points both are control points and must be kept)
+            if (
+                self.types[endPt] == flagOnCurve
+                and self.points[startPt] == self.points[endPt]
+            ):
                 self._popPoint()
                 endPt -= 1
 
